@@ -26,18 +26,25 @@ def jubjubSqrt (p : MontParams) (one a : L4) : Option L4 :=
   let s := powGen (squareL p) (mulL p) one a Gen.JubjubFr.SQRT_EXP
   if mulL p s s = a then some s else none
 
-/-- `curve25519/fp.rs: fn sqrt` (Algorithm 3 of eprint 2012/685, `p ≡ 5 (mod 8)`). -/
+/-- `curve25519/fp.rs: fn sqrt` (Algorithm 3 of eprint 2012/685, `p ≡ 5 (mod 8)`) after
+`a1 = self.pow_vartime(EXP)`, generic in the carrier: `a0 = (a1²·self)²`, `invalid = (a0 == -1)`,
+`b = T_SQRT·a1`, `ab = b·self`, `i = (ab·b).double()`, `x = ab·(i - 1)`. -/
+def c25519SqrtGen {α : Type} [DecidableEq α] (mul : α → α → α) (sq : α → α) (add sub : α → α → α)
+    (neg : α → α) (one tSqrt a a1 : α) : Option α :=
+  let a0 := sq (mul (sq a1) a)
+  let invalid := a0 = neg one
+  let b := mul tSqrt a1
+  let ab := mul b a
+  let i := add (mul ab b) (mul ab b)
+  let x := mul ab (sub i one)
+  if invalid then none else some x
+
+/-- `curve25519/fp.rs: fn sqrt` on Montgomery limbs. -/
 def c25519Sqrt (p : MontParams) (one a : L4) : Option L4 :=
   let r2 := (L4.ofList Gen.C25519Fp.R2).getD L4.zero
   let tSqrt := mulC p ((L4.ofList Gen.C25519Fp.T_SQRT_RAW).getD L4.zero) r2
   let a1 := powGen (squareC p) (mulC p) one a Gen.C25519Fp.SQRT_EXP
-  let a0 := squareC p (mulC p (squareC p a1) a)
-  let invalid := a0 = negL p.m one
-  let b := mulC p tSqrt a1
-  let ab := mulC p b a
-  let i := addC p.m (mulC p ab b) (mulC p ab b)
-  let x := mulC p ab (subL p.m i one)
-  if invalid then none else some x
+  c25519SqrtGen (mulC p) (squareC p) (addC p.m) (subL p.m) (negL p.m) one tSqrt a a1
 
 open Gen.JubjubFr in
 /-- Interpreter of the generated addition chain: registers, `sq`/`mul` supplied by the caller. -/
